@@ -62,13 +62,28 @@ class Gen:
         day = 1
         OKF = ["plain", "plain", "omitted", "omitted", "cost", "lot", "pair", "assign", "assert", "expr", "multi-omitted",
                "assert-cost", "cancel-assert",
-               "assign-zero", "total-cost", "neg-total"]
+               "assign-zero", "total-cost", "neg-total", "assign-zero-cur", "neg-rate"]
         ERRF = ["assert-false", "unbalanced", "zero-entry", "same-sign", "two-omitted", "zero-rate", "same-commodity-rate",
                 "bare-number", "half-unit", "three-commodity", "lot-and-cost"]
         bad_at = r.randint(0, ntxn - 1) if r.random() < 0.45 else -1
+        # the file need not be chronological (entries are kept in file order; date ranges select by date)
+        shuffled_dates = r.random() < 0.25
+        if shuffled_dates:
+            meta["flavors"].append("non-chronological")
         for k in range(ntxn):
             day += r.randint(0, 5)
+            if shuffled_dates:
+                day = r.randint(1, 40)
             date = "2024/%02d/%02d" % (1 + (day // 28) % 12, 1 + day % 28)
+            # a commodity declared again with another precision: the latest declaration is the declared precision
+            if coms and r.random() < 0.12:
+                c = r.choice(coms)
+                p = r.choice([q for q in (0, 1, 2, 3, 4) if q != prec.get(c)])
+                prec[c] = p
+                lines.append("commodity %s" % c)
+                lines.append("    format %s %s" % (fmt(Fraction(1000), p), c))
+                lines.append("")
+                meta["flavors"].append("redeclared-format")
             if flavor and (k == ntxn - 1 or r.random() < 0.3):
                 fl = flavor
             elif k == bad_at:
@@ -133,7 +148,7 @@ class Gen:
         if fl == "two-omitted":
             known[a1] = known[a2] = False
             return [P(a1, "%s %s" % (fmt(v), c)), a2, r.choice(accts)]
-        if fl in ("cost", "total-cost", "neg-total", "lot", "lot-and-cost", "zero-rate", "same-commodity-rate"):
+        if fl in ("cost", "total-cost", "neg-total", "lot", "lot-and-cost", "zero-rate", "same-commodity-rate", "neg-rate"):
             others = [x for x in coms if x != c]
             if not others and fl != "same-commodity-rate":
                 return self.txn("plain", coms, accts, prec, bal, known)
@@ -146,6 +161,11 @@ class Gen:
             known[a1] = known[a2] = False
             if fl == "cost" or fl in ("zero-rate", "same-commodity-rate"):
                 return [P(a1, "%s %s @ %s %s" % (fmt(v), c, fmt(rate), c2)), P(a2, "%s %s" % (fmt(-v * rate), c2))]
+            if fl == "neg-rate":
+                # a negative unit price (cost or lot position): the balancing value is quantity x rate, sign included
+                form = r.choice(["%s %s @ %s %s", "%s %s {%s %s}"])
+                tail = r.choice([P(a2, "%s %s" % (fmt(v * rate), c2)), a2])
+                return [P(a1, form % (fmt(v), c, fmt(-rate), c2)), tail]
             if fl == "total-cost":
                 tot = abs(v * rate)
                 return [P(a1, "%s %s @@ %s %s" % (fmt(v), c, fmt(tot), c2)),
@@ -188,6 +208,31 @@ class Gen:
             known[a2] = False
             if r.random() < 0.3:
                 posts.reverse()
+            return posts
+        if fl == "assign-zero-cur":
+            # `acct = 0 CUR` (zero WITH a commodity) on an account that holds CUR, then more activity on the account:
+            # the assigned commodity must be gone from the running balance (not left as a zero entry / stale total)
+            w = self.value()
+            posts = [P(a1, "%s %s" % (fmt(v), c)), P(a1, "= 0 %s" % c)]
+            self.track(bal, known, a1, c, v)
+            if known.get(a1):
+                bal[a1].pop(c, None)
+            variant = r.choice(["then-assert", "then-bare-zero", "last", "then-assert-next"])
+            if variant == "then-assert":
+                self.track(bal, known, a1, c, w)
+                posts.append(P(a1, "%s %s%s" % (fmt(w), c, self.assertion(bal, known, a1, c, r.random() < 0.8))))
+            elif variant == "then-bare-zero":
+                others = [x for x in coms if x != c]
+                if others:
+                    c2 = r.choice(others)
+                    posts.append(P(a1, "= %s %s" % (fmt(w), c2)))
+                    if known.get(a1):
+                        bal[a1][c2] = w
+                if known.get(a1) and len(bal[a1]) <= 1:
+                    posts.append(P(a1, "= 0"))
+                    bal[a1].clear()
+            posts.append(a2)
+            known[a2] = False
             return posts
         if fl == "assign-zero":
             posts = [P(a1, "= 0"), a2]
